@@ -5,8 +5,11 @@ package verifsim
 import (
 	"fmt"
 	"sort"
+	"strings"
 	"testing"
 	"time"
+
+	"go.opentelemetry.io/otel/attribute"
 
 	"github.com/honeycombio/refinery/config"
 )
@@ -17,7 +20,7 @@ import (
 
 func init() {
 	Register(&Check{ID: "C16", World: "B/cluster", Gen: genStressB, Run: runStressB, Real: bReal, Stub: bStub,
-		OwnProbes: []string{"stressed_span_kept", "stressed_span_dropped", "stressed_on_non_owner_kept", "late_span_after_relief_on_owner", "probe_sent_to_owner", "both_entry_and_owner_stressed", "batch_waited_for_its_sender"}})
+		OwnProbes: []string{"stressed_span_kept", "stressed_span_dropped", "stressed_on_non_owner_kept", "late_span_after_relief_on_owner", "probe_sent_to_owner", "both_entry_and_owner_stressed", "batch_waited_for_its_sender", "relief_ended_while_span_in_router"}})
 }
 
 func genStressB(r *Rng, tier string, p *Plan) {
@@ -49,6 +52,7 @@ func genStressB(r *Rng, tier string, p *Plan) {
 		nTraces = r.Range(2, 30)
 	}
 	mk := 0
+	endsDuring := false
 	for t := 0; t < nTraces; t++ {
 		nsp := r.Range(1, 3)
 		for s := 0; s < nsp; s++ {
@@ -58,7 +62,14 @@ func genStressB(r *Rng, tier string, p *Plan) {
 			if r.Bool(0.15) {
 				entry = r.Intn(nodes)
 			}
-			p.Add(Op{K: "ev", At: now, I: int64(entry), J: int64(t), N: int64(mk), S: PickOf(r, "json", "msgpack"), T: "batch", M: int64(r.Intn(4))})
+			ev := Op{K: "ev", At: now, I: int64(entry), J: int64(t), N: int64(mk), S: PickOf(r, "json", "msgpack"), T: "batch", M: int64(r.Intn(4))}
+			if !endsDuring && r.Bool(0.06) {
+				// relief on the entry node ends while this very span is being handled
+				// (after the router has seen the node stressed)
+				ev.T = "batch|relief_ends"
+				endsDuring = true
+			}
+			p.Add(ev)
 		}
 	}
 	if r.Bool(0.3) {
@@ -177,8 +188,10 @@ func runStressB(t *testing.T, p *Plan) *Outcome {
 				tid := traceIDFor(p.Seed, int(op.J))
 				ev := &bEvent{marker: fmt.Sprintf("m%d", op.N), traceID: tid, root: op.M == 0, rate: int(1 + op.N%3),
 					ts: time.Unix(1700000000+op.N, 0).UTC(), fields: map[string]any{"f1": "v" + fmt.Sprint(op.N%4)}}
-				req := &bRequest{id: op.ID, node: int(op.I), endpoint: op.T, enc: op.S, apiKey: legacyKey, dataset: "ds", events: []*bEvent{ev}}
+				ep, how, _ := strings.Cut(op.T, "|")
+				req := &bRequest{id: op.ID, node: int(op.I), endpoint: ep, enc: op.S, apiKey: legacyKey, dataset: "ds", events: []*bEvent{ev}}
 				se := &stressEv{op: op, ev: ev, req: req, entry: int(op.I), late: op.B}
+				reliefEnds := how == "relief_ends"
 				evs = append(evs, se)
 				w.drv.AtSig(us(op.At), "request", fmt.Sprintf("op/%d", op.ID), fmt.Sprintf("%d/%d", op.I, op.J), func() {
 					n := w.nodes[se.entry]
@@ -189,6 +202,24 @@ func runStressB(t *testing.T, p *Plan) *Outcome {
 						se.firstSeenStress = true
 					}
 					seenAt[key] = true
+					if reliefEnds && se.entryStressed {
+						// the collector's stress path announces itself to the tracer after the
+						// router has read the stress state: relief ends right there
+						armed := true
+						n.tr.OnStart = func(name string, _ func(string) (attribute.Value, bool)) {
+							if !armed || name != "collector.ProcessSpanImmediately" {
+								return
+							}
+							armed = false
+							n.cfg.Mux.Lock()
+							n.cfg.StressRelief.Mode = "never"
+							n.cfg.Mux.Unlock()
+							n.sr.UpdateFromConfig()
+							n.sr.Recalc()
+							out.Probe("relief_ended_while_span_in_router")
+							out.Fault("stress_relief_toggle")
+						}
+					}
 					w.send(req)
 				})
 			}
